@@ -113,7 +113,7 @@ func (bpi *BucketPolicyItem) Validate(bucket string, iam IAMService) error {
 	for action := range bpi.Actions {
 		isObjectAction := action.IsObjectAction()
 		if isObjectAction == nil {
-			break
+			continue
 		}
 		if *isObjectAction && !containsObjectAction {
 			return policyErrResourceMismatch
